@@ -25,6 +25,7 @@ import (
 	"strconv"
 	"strings"
 	"sync"
+	"sync/atomic"
 
 	"encoding/hex"
 
@@ -40,6 +41,8 @@ import (
 )
 
 const chainID = 5851
+
+var surplusCases atomic.Int64
 
 // ---------------------------------------------------------------- cases
 
@@ -134,6 +137,19 @@ func assemble(label string, sets []*sigasm.Set, encs [][]sigasm.KeyEnc, rng *vf.
 	for i, s := range sets {
 		if _, err := s.SignRandom(h[:], rng); err != nil {
 			panic(err)
+		}
+		if s.Multi && rng.Chance(15) {
+			// more signatures than the threshold (the validator accepts that: it checks the first m):
+			// further members' valid signatures, or a junk one, after the m required ones
+			surplusCases.Add(1)
+			if s.M < len(s.Keys) && rng.Chance(70) {
+				idx := rng.Perm(len(s.Keys))[:s.M+1+rng.Intn(len(s.Keys)-s.M)]
+				if err := s.SignWith(h[:], idx); err != nil {
+					panic(err)
+				}
+			} else {
+				s.Sigs = append(s.Sigs, append([]byte{}, s.Sigs[0]...))
+			}
 		}
 		if rng.Chance(10) { // signature pushes in another length form
 			for range s.Sigs {
@@ -731,5 +747,7 @@ func main() {
 	r.Assume("CheckWitness is probed with an empty contract-call stack (SmartContract{Config{Tx}}), i.e. only the signer-account clause")
 	r.Assume("secp256k1 keys of type PK_ECDSA (non-Ethereum) are not in the shared key pool and are not generated")
 	os.RemoveAll(scratch)
+	r.Add("cases_with_more_signatures_than_threshold", surplusCases.Load())
+	r.Require("cases_with_more_signatures_than_threshold", 20)
 	r.Finish()
 }
